@@ -31,6 +31,21 @@ query and keys in opposite directions; ``random``; ``extreme``: scores equal to 
 such scores anything finite written into the masked positions (-1e4, -1e9, finfo.min, ...) is no
 longer negligible, whereas with ordinary scores exp underflows to exactly 0 and hides it.
 
+SIZE-TRIGGERED CODE PATHS (``_size_cases``): sequence lengths at and around the powers of two and their
+multiples (31 .. 1025: 2^p - 1, 2^p, 2^p + 1, 3 * 2^p, 5 * 64, ...; every length of the grid in every run, the
+exact multiples of 64 with every flavour), around round decimal lengths (99 .. 1001) and a few anywhere in
+66 .. 1100; key / query / value / hidden sizes and batch axes of 31 .. 257 (64, 128, 256 in every run);
+multi-headed attention with long sequences, 4 .. 32 heads, head vectors / model sizes / batches of 15 .. 129;
+one call with every dimension moderately large and one HUGE call (>= 2^15 scores; judged by the model-free
+predicates only, not shipped to the Lean driver).  Long sequences put the attention weight on chosen
+stretches through ``window`` masks (only the last / first r positions kept, only the last block, everything
+but the last block, only the block boundaries) or spread it (random mask, no mask); coordinate 0 of the
+values is one constant (``vconst``: the hull is a point, the output must be that constant).  Permutations of
+long sequences include the reversal, a rotation and the exchange of the first and the last block;
+``C20.split``: the output equals the mixture of the implementation's outputs on the consecutive blocks of a
+random split of the sequence, block B weighted with the sum of the captured softmax weights inside it
+(theorem ``C20_split_merge``).
+
 Correspondence: (a) every element of the broadcast batch (query vector, list of keys, list of
 values, keep flags) goes to the Lean model (``attend`` / ``mhaForwardH``), which also evaluates
 the declarative spec (``attendSpec`` / ``mhaSpecH``); (b) the raw arguments of the call go to the
@@ -329,6 +344,55 @@ def _layout(x, how, rng):
     return y
 
 
+# ---- size-triggered code paths ---------------------------------------------------------------------
+# Lengths at and around powers of two and their multiples (block sizes of chunked / tiled / vectorised
+# implementations), and around round decimal numbers: every one is a place where "the last block", "the
+# remainder" or "the one-shot path for short inputs" begins or ends.
+POW2_GRID = sorted({2 ** p + d for p in range(5, 11) for d in (-1, 0, 1)} |
+                   {3 * 2 ** p for p in (5, 6, 7, 8)} | {320, 640, 960})
+DEC_GRID = [99, 100, 101, 199, 200, 201, 250, 300, 500, 999, 1000, 1001]
+FEATURE_GRID = [31, 32, 33, 63, 64, 65, 127, 128, 129, 255, 256, 257]
+
+
+def length_class(T):
+    """where a length sits relative to the powers of two (tag of the evidence histogram)"""
+    if T <= 8:
+        return "small(<=8)"
+    if T & (T - 1) == 0:
+        return "2^p"
+    if (T + 1) & T == 0:
+        return "2^p-1"
+    if (T - 1) & (T - 2) == 0:
+        return "2^p+1"
+    if T % 64 == 0:
+        return "multiple of 64"
+    if T % 32 == 0:
+        return "multiple of 32"
+    if T % 50 == 0:
+        return "multiple of 50"
+    if (T + 1) % 100 == 0 or (T - 1) % 100 == 0:
+        return "100m+-1"
+    return "other"
+
+
+def window_positions(win, T):
+    """The positions of the sequence a `window` mask may keep (sorted list, never empty): the attention
+    weight is confined to the last / first positions, to the last block, to everything but the last block, or
+    to the positions next to the block boundaries."""
+    kind, r, b = win["kind"], max(1, win.get("r", 1)), max(1, win.get("block", 64))
+    if kind == "tail":
+        pos = range(max(0, T - r), T)
+    elif kind == "head":
+        pos = range(0, min(r, T))
+    elif kind == "lastblock":      # the final (full or partial) block of size b
+        pos = range(((T - 1) // b) * b, T)
+    elif kind == "notlast":        # everything except the final block
+        pos = range(0, ((T - 1) // b) * b) if T > b else range(0, max(1, T - 1))
+    else:                          # "edges": first and last position of every block, and the very last
+        pos = [t for t in range(T) if t % b in (0, b - 1) or t == T - 1]
+    return sorted(pos) or [T - 1]
+
+
 def case_shapes(case):
     E, nb, T = case["E"], case["nb"], case["T"]
 
@@ -365,6 +429,10 @@ def make_inputs(case):
         q = torch.tensor(_ints(rng, _numel(qs), -lim, lim), dtype=torch.float32).reshape(qs)
         k = torch.tensor(_ints(rng, _numel(ks), -lim, lim), dtype=torch.float32).reshape(ks)
     v = torch.tensor(_ints(rng, _numel(vs), -9, 9), dtype=torch.float32).reshape(vs)
+    if case.get("vconst") is not None and not case.get("alias"):
+        # coordinate 0 of every value is one constant: the hull of the kept values is the single point
+        # [c, c], so the output coordinate must be c (the weights sum to one over exactly the kept positions)
+        v[..., 0] = float(case["vconst"])
     mx = case.get("mixed")
     if mx:
         # every argument in its own dtype (integer valued contents: exact in every dtype, also bfloat16)
@@ -398,9 +466,15 @@ def make_inputs(case):
             if ms[ax] == 1:
                 mask[...] = True
             else:
-                mm = mask.movedim(ax, -1).reshape(-1, ms[ax])
+                mm = mask.movedim(ax, -1).reshape(-1, ms[ax]).clone()
+                allowed = None
+                if case.get("window") and case["mask"] == "some":
+                    allowed = window_positions(case["window"], ms[ax])
+                    off = torch.ones(ms[ax], dtype=torch.bool)
+                    off[allowed] = False
+                    mm[:, off] = False
                 for r in range(mm.shape[0]):
-                    mm[r, rng.randrange(ms[ax])] = True
+                    mm[r, rng.randrange(ms[ax]) if allowed is None else allowed[rng.randrange(len(allowed))]] = True
                     if ms[ax] >= 2 and case["mask"] == "some" and bool(mm[r].all()) and rng.random() < 0.7:
                         mm[r, rng.randrange(ms[ax])] = False
                 mask = mm.reshape([s for j, s in enumerate(ms) if j != ax] + [ms[ax]]).movedim(-1, ax).contiguous()
@@ -638,6 +712,43 @@ def wsum_diff(a, vals, out, i, T, P):
             f"(|diff| = {float(d.max()):.3g} > {tol:.3g})")
 
 
+def split_points(rng, T):
+    """a random split of 0..T into consecutive blocks (sorted cut points incl. 0 and T): a few random cuts, for
+    long sequences also equal blocks of a power-of-two size (the last one partial or full)"""
+    if T > 8 and rng.random() < 0.5:
+        b = rng.choice([x for x in (4, 16, 32, 64, 128, 256) if x < T])
+        cuts = list(range(b, T, b))
+    else:
+        cuts = sorted(rng.sample(range(1, T), min(T - 1, rng.randint(1, 4))))
+    return [0] + cuts + [T]
+
+
+def split_diff(mod, a, qf, kf, vf, mfull, out_e, i, cuts, tol):
+    """The attention over the whole sequence is the mixture of the attentions over the consecutive blocks
+    `cuts` describes, block b entering with the share m_b = sum of the (whole-sequence) weights inside it
+    (theorem C20_split_merge); blocks without a kept position have share 0 and are left out.  Computed in
+    double from the outputs of the implementation on the blocks."""
+    import torch
+    acc = torch.zeros(out_e.shape, dtype=torch.float64)
+    a64 = a.to(torch.float64)
+    for s0, s1 in zip(cuts[:-1], cuts[1:]):
+        n = s1 - s0
+        mb = mfull.narrow(i, s0, n)
+        share = a64.narrow(i, s0, n).sum(i)                       # (E*,): > 0 iff the block keeps something
+        ob = mod(qf, kf.narrow(i, s0, n), vf.narrow(i, s0, n), mb).to(torch.float64)
+        has = mb.any(i)
+        if bool((has & ~torch.isfinite(ob).all(-1)).any()):
+            return f"non-finite output on the block of positions {s0}..{s1 - 1}"
+        acc = acc + torch.where(has.unsqueeze(-1), share.unsqueeze(-1) * ob, torch.zeros_like(ob))
+    o = out_e.to(torch.float64)
+    d = (acc - o).abs()
+    if d.numel() == 0 or float(d.max()) <= tol:
+        return None
+    j = int(d.reshape(-1).argmax())
+    return (f"{float(o.reshape(-1)[j])!r} vs mixture of the blocks {float(acc.reshape(-1)[j])!r} "
+            f"(|diff| = {float(d.max()):.3g} > {tol:.3g})")
+
+
 # ------------------------------------------------------------------------------------ the check
 class C20(PropertyCheck):
     pid = "C20"
@@ -647,7 +758,12 @@ class C20(PropertyCheck):
             "batch==heads / batch!=heads x inner flavour x d_v/out_size passed or defaulted; malformed-shape "
             "stream over all flavours; large-magnitude stream (flavour x {offset, opposed, random, extreme} x "
             "{float32, float64}, single and multi-headed, exact integer scores 1e4..1e13 and +-finfo.max); "
-            "long sequences / long vectors (T <= 64, K <= 16); mixed dtypes (flavour x parameter dtype x value "
+            "long sequences / long vectors (T <= 64, K <= 16); size-triggered paths: every sequence length of the "
+            "grid {2^p - 1, 2^p, 2^p + 1 (p = 5..10), 3 * 2^p, 320, 640, 960} in every run (multiples of 64 with "
+            "every flavour), decimal lengths 99..1001 (200, 1000 always), random lengths 66..1100, vector sizes / "
+            "batch axes / hidden sizes 31..257 (64, 128, 256 always), multi-headed with T up to 1024, H up to 32, "
+            "head / model sizes up to 128, one bulk and one huge (model-free) call, window masks (tail / head / "
+            "last block / all but the last block / block edges), constant value coordinate; mixed dtypes (flavour x parameter dtype x value "
             "dtype in {float16, bfloat16, float32, float64, int64, int32, int16, int8, uint8, bool}; every "
             "(query dtype, key dtype) pair torch's type promotion admits; value path of multi-headed attention "
             "in float64; a few rejected combinations); dtype, memory layout (strided, transposed, "
@@ -672,6 +788,12 @@ class C20(PropertyCheck):
         "(T + 2) eps(P) max|v|; the parameters are float32 / float64 only (half-precision parameters, complex "
         "values and a changed torch default dtype are not exercised); the result DTYPE is recorded, not judged",
         "driver glue: row-major addressing of the flat tensor data (flatIndex/mkTensor/allIdx in C20Main.lean)",
+        "huge calls (`nomodel`: >= 2^15 scores) are judged by the property predicates on the implementation only "
+        "(convexity, weights, weighted sum, split, blindness, permutations, explicit expansion); they are not "
+        "sent to the Lean model",
+        "C20.split: the shares of the blocks are sums of the softmax weights captured from the implementation; "
+        "the mixture is formed in double precision and compared within max(case tolerance, (T + 2) eps(P)) max|v|",
+        "long sequences keep the 1e-5 tolerance (float32 sums of up to 1025 terms: observed gap below 0.15 of it)",
     ]
     quick_budget_s = 75
     thorough_budget_s = 700
@@ -828,6 +950,152 @@ class C20(PropertyCheck):
             **({"lim": 1} if wide else {}),
         }
 
+    # ---- size-triggered code paths: long sequences, large feature / batch / hidden / head dimensions ----
+    WINDOWS = ("tail", "tail", "lastblock", "notlast", "edges", "head")
+
+    def _window(self, rng, T):
+        kind = rng.choice(self.WINDOWS)
+        return {"kind": kind, "r": rng.choice([1, 1, 2, 3, 5, 64]), "block": rng.choice([32, 64, 64, 128])}
+
+    def _sized_single(self, rng, flavour, tier, axis, size, mask=None):
+        """One single-head case with ONE dimension large (`axis`: T sequence length, K key size (dot: = query
+        size), Q query size, D value size, E one batch axis, hidden (concat), bulk: all moderately large) and
+        the others small.  Long sequences put the attention weight on chosen stretches (`window` masks: the
+        last / first positions, the last block, everything but the last block, block boundaries) or leave
+        it spread (random mask / no mask); coordinate 0 of the values is a constant (`vconst`)."""
+        n = rng.choice([2, 3, 3]) if axis != "E" else rng.choice([3, 3, 4])
+        nb = rng.randint(0, n - 2)
+        c = self._single(rng, flavour, n, nb, rng.random() < 0.3, tier, wide=True,
+                         pattern=rng.choice(["full", "full", "query_bcast", "key_bcast", "mixed"]))
+        c["T"], c["K"], c["D"] = rng.randint(2, 6), rng.randint(1, 3), rng.randint(2, 3)
+        c["Q"] = c["K"] if flavour == "dot" else rng.randint(1, 3)
+        if flavour != "dot":
+            c["pmode"] = rng.choice(["int", "dyadic"] if axis in ("K", "Q", "hidden", "bulk")
+                                    else ["int", "dyadic", "float"])
+        if axis == "T":
+            c["T"] = size
+            while _numel(c["E"]) > (2 if size > 300 else 4):
+                c["E"][rng.randrange(len(c["E"]))] = 1
+            c["mT"] = c["vT"] = True
+        elif axis == "K":
+            c["K"] = size
+            if flavour == "dot":
+                c["Q"] = size
+                c["scale"] = rng.choice(["1/4", "1/4", "1/2", "-1", "1"])
+            elif rng.random() < 0.3:
+                c["Q"] = rng.choice([x for x in FEATURE_GRID if x <= 65])
+        elif axis == "Q":
+            c["Q"] = size
+            if flavour == "dot":
+                c["K"] = size
+        elif axis == "D":
+            c["D"] = size
+        elif axis == "E":
+            j = rng.randrange(len(c["E"]))
+            c["E"] = [1 if x > 2 else x for x in c["E"]]
+            c["E"][j] = size
+            c["T"] = rng.randint(2, 4)
+        elif axis == "hidden":
+            c["hidden"] = size
+        elif axis == "bulk":
+            # every dimension moderately large at once (thresholds on the number of elements)
+            n, nb = 4, rng.randint(0, 2)
+            c.update({"nb": nb, "dim": nb - n if (c["dim"] < 0 and nb >= 1) else nb, "E": [rng.choice([3, 4]), size],
+                      "T": rng.choice([31, 32, 33]), "K": 4, "Q": 4 if flavour == "dot" else 3, "D": 8,
+                      "mT": True, "vT": True, "mdrop": 0})
+            for key in ("bq", "bk", "bv", "bm"):
+                c[key] = [1, 1]
+        elif axis == "huge":
+            # >= 2^15 scores: too much to ship to the Lean driver as exact fractions; the model-free predicates
+            # (convexity, weights, weighted sum, blindness, permutations, split, explicit expansion) judge it
+            n, nb = 4, rng.randint(0, 2)
+            c.update({"nb": nb, "dim": nb - n if (c["dim"] < 0 and nb >= 1) else nb, "E": [rng.choice([7, 8, 9]), rng.choice([15, 16, 17])],
+                      "T": size, "K": 2, "Q": 2, "D": 4, "mT": True, "vT": True, "mdrop": 0, "nomodel": True})
+            c["bq"], c["bk"], c["bv"], c["bm"] = [rng.randint(0, 1), 1], [1, 1], [1, 1], [1, rng.randint(0, 1)]
+        T = c["T"]
+        c["mask"] = mask or rng.choice(["some", "some", "some", "none", "all"])
+        if c["mask"] == "some" and T > 8 and rng.random() < 0.6:
+            c["window"] = self._window(rng, T)
+        c["vconst"] = rng.choice([-7, -1, 1, 1, 2, 9])
+        # value dtype other than the parameters' now and then (not the half precisions: their tolerance over
+        # a thousand summands would say little), large-magnitude scores only where they stay exact
+        mode = rng.choice(["offset", "random"]) if axis in ("T", "D", "E") and rng.random() < 0.12 else None
+        self._extras(rng, c, tier, mode=mode, layout=False if axis == "huge" else None, mixed=False)
+        if rng.random() < 0.15:
+            self._mixed(rng, c, v=rng.choice(["float64", "float32", "int64", "int32", "int16", "int8", "uint8",
+                                              "bool"]))
+        return c
+
+    def _sized_multi(self, rng, flavour, tier, axis, size):
+        """MultiHeadedAttention with a long sequence / many heads / large head vectors / a large batch."""
+        flags = {k: rng.random() < 0.5 for k in ("wq", "wk", "wv", "wc")}
+        H = size if axis == "H" else rng.randint(1, 3)
+        c = self._multi(rng, flavour, flags, H, rng.random() < 0.3 and axis not in ("H", "E"), tier)
+        c["T"] = rng.randint(2, 5)
+        if axis == "T":
+            c["T"] = size
+            c["E"] = [min(e, 2) for e in c["E"]]
+        elif axis == "d":      # large head vectors (d_q, d_k, d_v) and model sizes
+            c["dv"] = size
+            c["dk"] = rng.choice([size, rng.randint(1, 2)])
+            c["dq"] = c["dk"] if flavour == "dot" else rng.randint(1, 2)
+            c.pop("dv_default", None)
+            c["lim"] = 1
+        elif axis == "model":  # large query / key / value / output sizes
+            c["Q"], c["K"], c["D"], c["O"] = (rng.choice([size, rng.randint(1, 3)]) for _ in range(4))
+            c[rng.choice(["Q", "K", "D", "O"])] = size
+            c["lim"] = 1
+        elif axis == "E" and c["E"]:
+            c["E"][-1] = size
+        if axis in ("H", "d", "model"):
+            c["pmode"] = "dyadic"   # the projections stay exact in float32: what is compared is the attention
+        c["mask"] = rng.choice(["some", "some", "some", "none"])
+        if c["mask"] == "some" and c["T"] > 8 and rng.random() < 0.6:
+            c["window"] = self._window(rng, c["T"])
+        return self._extras(rng, c, tier, layout=None, mixed=False)
+
+    def _size_cases(self, rng, tier):
+        quick = tier == "quick"
+        fl0 = rng.randrange(3)
+        # (1) sequence lengths at and around (multiples of) powers of two: EVERY length of the grid in every
+        # run; the exact multiples of 64 with every flavour, the others with the flavours in rotation
+        for j, T in enumerate(POW2_GRID):
+            fls = FLAVOURS if (not quick or (T % 64 == 0 and T > 64)) else (FLAVOURS[(fl0 + j) % 3],)
+            for flavour in fls:
+                yield self._sized_single(rng, flavour, tier, "T", T)
+        # ... around round decimal lengths (the exact multiples 200 and 1000 in every run), and anywhere in between
+        dec = [200, 1000] + rng.sample([t for t in DEC_GRID if t not in (200, 1000)], 3) if quick else DEC_GRID
+        for j, T in enumerate(dec + [rng.randint(66, 1100) for _ in range(3 if quick else 12)]):
+            for flavour in ((FLAVOURS[(fl0 + j) % 3],) if quick else FLAVOURS):
+                yield self._sized_single(rng, flavour, tier, "T", T)
+        # (2) large vector sizes / batch axes / hidden layers: the exact powers of two 64, 128, 256 in every run
+        # (with every flavour the dimension means something to: the score functions are flavour-specific),
+        # their neighbours sampled
+        exact = (64, 128, 256)
+        for axis in ("K", "Q", "D", "E", "hidden"):
+            fls = {"K": FLAVOURS, "Q": ("general", "concat"), "hidden": ("concat",)}.get(axis)
+            sizes = list(exact) + (rng.sample([x for x in FEATURE_GRID if x not in exact], 2) if quick
+                                   else [x for x in FEATURE_GRID if x not in exact])
+            for j, size in enumerate(sizes):
+                every = fls if (fls and (size in exact or not quick)) else None
+                for flavour in (every or ((rng.choice(fls) if fls else FLAVOURS[(fl0 + j) % 3]),)):
+                    yield self._sized_single(rng, flavour, tier, axis, size)
+        # (3) everything moderately large at once; and a HUGE call (>= 2^15 scores, >= 2^17 value entries:
+        # thresholds on the number of elements), judged by the model-free predicates only
+        for flavour in ((rng.choice(FLAVOURS),) if quick else FLAVOURS):
+            yield self._sized_single(rng, flavour, tier, "bulk", rng.choice([7, 8, 9]))
+            yield self._sized_single(rng, flavour if quick else rng.choice(FLAVOURS), tier, "huge",
+                                     256 if quick else rng.choice([255, 256, 256, 257]))
+        # (4) multi-headed: long sequences (through the wrapped attention), many heads, large head vectors
+        mT = [64, 128, 192, 1024] + rng.sample([t for t in POW2_GRID if t not in (64, 128, 192, 1024)], 3) \
+            if quick else POW2_GRID + DEC_GRID
+        for j, T in enumerate(mT):
+            yield self._sized_multi(rng, FLAVOURS[(fl0 + j) % 3], tier, "T", T)
+        for axis, first, sizes in (("H", 8, [4, 7, 16, 17, 32]), ("d", 64, [15, 16, 17, 32, 33]),
+                                   ("model", 64, [31, 32, 33, 65, 128]), ("E", 64, [31, 32, 33, 65, 129])):
+            for j, size in enumerate([first] + (rng.sample(sizes, 1) if quick else sizes)):
+                yield self._sized_multi(rng, FLAVOURS[(fl0 + j) % 3] if quick else rng.choice(FLAVOURS), tier, axis, size)
+
     def _multi(self, rng, flavour, flags, H, batch_eq, tier, layout=None):
         # layouts: the docstring's (T, B) [nb=0, one trailing batch axis], (B, T) [nb=1], and a 4-axis key
         layout = layout or rng.choice(["TB", "TB", "BT", "BTC", "T"])
@@ -981,6 +1249,9 @@ class C20(PropertyCheck):
                 n = rng.choice([2, 3, 4])
                 yield self._extras(rng, self._single(rng, flavour, n, rng.randint(0, n - 2), False, tier, wide=True),
                                    tier, layout=None)
+        # size-triggered code paths
+        for c in self._size_cases(rng, tier):
+            yield c
         # free random stream
         n_free = {"quick": 500, "thorough": 5000, "search": 3000}[tier]
         modes = ("offset", "opposed", "random", "extreme")
@@ -1153,15 +1424,29 @@ class C20(PropertyCheck):
         if T >= 2:
             perm = list(range(T))
             rng.shuffle(perm)
-            idx = torch.tensor(perm)
-            try:
-                o3 = mod(qf, kf.index_select(i, idx), vf.index_select(i, idx), mfull.index_select(i, idx))
-                d = close(o3, out_e, scale, tol)
-                if d:
-                    fails.append([f"output changes under the permutation {perm} of the positions ({d})",
-                                  "C20.perm"])
-            except Exception as e:  # noqa
-                fails.append([f"permuted call raised {type(e).__name__}", "C20.perm"])
+            perms = [("the permutation", perm)]
+            if T > 8:
+                # long sequences: also the reversal, a rotation (the last positions come first) and the
+                # exchange of the first and the last block
+                r = rng.randrange(1, T)
+                b = min(rng.choice([32, 64, 128]), T // 2)
+                perms += [("the reversal", list(range(T - 1, -1, -1))),
+                          (f"the rotation by {r}", list(range(r, T)) + list(range(r))),
+                          (f"the exchange of the first and the last {b} positions",
+                           list(range(T - b, T)) + list(range(b, T - b)) + list(range(b)))]
+            for name, perm in perms:
+                idx = torch.tensor(perm)
+                try:
+                    o3 = mod(qf, kf.index_select(i, idx), vf.index_select(i, idx), mfull.index_select(i, idx))
+                    d = close(o3, out_e, scale, tol)
+                    if d:
+                        fails.append([f"output changes under {name} "
+                                      f"{perm if T <= 16 else str(perm[:8])[:-1] + ', ...]'} of the positions ({d})",
+                                      "C20.perm"])
+                        break
+                except Exception as e:  # noqa
+                    fails.append([f"permuted call raised {type(e).__name__}", "C20.perm"])
+                    break
         return fails
 
     def _dtypes(self, case, mod, q, k, v):
@@ -1202,19 +1487,22 @@ class C20(PropertyCheck):
                 # position meets the weight 0 and gives nan (not a failure: outside the quantifier)
                 v_inf = torch.where(mf.unsqueeze(-1), vf, torch.full_like(vf, float("inf")))
                 obs["inf_masked_value_gives_nan"] = bool(torch.isnan(mod(qf, kf, v_inf, mf)).any())
-            if list(out.shape) == Eb + [v.shape[-1]]:
+            lists = not case.get("nomodel")   # exact lists of numbers are only needed for the model comparison
+            if list(out.shape) == Eb + [v.shape[-1]] and lists:
                 obs["out"] = tl2(out.reshape(-1, out.shape[-1]))
             ok_shape = len(store) == 1 and e.dim() == len(ET)
             try:
                 ee = e.broadcast_to(ET).movedim(i, -1).reshape(-1, T)
-                obs["scores"] = tl2(ee)
+                if lists:
+                    obs["scores"] = tl2(ee)
             except RuntimeError:
                 obs["checks"].append([f"score() shape {list(e.shape)} does not broadcast to {ET}", "C20.shape"])
             if ok_shape:
                 try:
                     a = store[0]
                     aa = a.broadcast_to(ET).movedim(i, -1).reshape(-1, T)
-                    obs["weights"] = tl2(aa)
+                    if lists:
+                        obs["weights"] = tl2(aa)
                     mm = (mf if mf is not None else torch.ones(ET, dtype=torch.bool)).movedim(i, -1).reshape(-1, T)
                     if bool((aa < 0).any()):
                         obs["checks"].append(["negative attention weight", "C20.weights"])
@@ -1230,6 +1518,25 @@ class C20(PropertyCheck):
                         if d:
                             obs["checks"].append([f"result is not the weighted sum of the values under the softmax "
                                                   f"weights: {d}", "C20.wsum"])
+                        # ... and the mixture of the attentions over consecutive blocks of the sequence, for a
+                        # random split (C20_split_merge): an implementation that works block by block must agree
+                        # with the one-shot result, whatever the blocks
+                        if T >= 2 and not obs["checks"]:
+                            srng = random.Random(case["seed"] ^ 0xB10C)
+                            cuts = split_points(srng, T)
+                            mfull = mf if mf is not None else torch.ones(ET, dtype=torch.bool)
+                            vmax = max(1.0, float(vf.to(torch.float64).abs().max())) if vf.numel() else 1.0
+                            stol = max(case_tol(case, A, P), (T + 2) * float(torch.finfo(P).eps)) * vmax
+                            try:
+                                d = split_diff(mod, a.broadcast_to(ET), qf, kf, vf, mfull, mod(qf, kf, vf, mfull), i,
+                                               cuts, stol)
+                            except Exception as exc:  # noqa
+                                d = f"call on a block raised {type(exc).__name__}: {exc}"[:200]
+                            if d:
+                                obs["checks"].append([f"attention over the whole sequence is not the mixture of the "
+                                                      f"attentions over the consecutive blocks cut at "
+                                                      f"{cuts[1:-1] if len(cuts) <= 12 else str(cuts[1:9])[:-1] + ', ...]'}"
+                                                      f": {d}", "C20.split"])
                 except RuntimeError:
                     obs["checks"].append([f"softmax output shape {list(store[0].shape)} does not broadcast to {ET}",
                                           "C20.shape"])
@@ -1326,6 +1633,8 @@ class C20(PropertyCheck):
             return {"op": "c20.shape", "case": {
                 "query_size": case["query_size"], "key_size": case["key_size"], "value_size": case["value_size"],
                 "dim": case["dim"], "q": case["q"], "k": case["k"], "v": case["v"], "mask": case["m"]}}
+        if case.get("nomodel"):
+            return None  # huge call: property predicates only (see _sized_single)
         import torch
         q, k, v, mask, params = make_inputs(case)
         if (case.get("mixed") or {}).get("m", "bool") != "bool":
@@ -1549,6 +1858,19 @@ class C20(PropertyCheck):
                                  if mag["mode"] != "extreme" else "extreme:finfo.max"))
         if case["T"] > 8 or case["K"] > 3:
             t.append("wide(T>8 or K>3)")
+        t.append("T_class=" + length_class(case["T"]))
+        t.append("T_range=" + next(n for lim_, n in ((8, "1-8"), (64, "9-64"), (128, "65-128"), (256, "129-256"),
+                                                    (512, "257-512"), (10 ** 9, "513-1101")) if case["T"] <= lim_))
+        big = [f"{n}>=31" for n, x in (("Q", case["Q"]), ("K", case["K"]), ("D", case["D"]),
+                                        ("batch_axis", max(case["E"] or [1])), ("hidden", case.get("hidden", 0)),
+                                        ("H", case.get("H", 0)), ("d_v", case.get("dv", 0) if case["kind"] == "multi" else 0),
+                                        ("d_k", case.get("dk", 0)), ("out_size", case.get("O", 0))) if x >= 31]
+        t.append("large_dims=" + ("+".join(big) if big else "none"))
+        if case["kind"] == "multi" and case["H"] > 3:
+            t.append("many_heads(H>3)")
+        t.append("window=" + (case["window"]["kind"] if case.get("window") and case["mask"] == "some" else "none"))
+        if case.get("vconst") is not None and not case.get("alias"):
+            t.append("value_coordinate_0=constant")
         if case["kind"] == "multi":
             f = case["flags"]
             t.append("flags=" + "".join("1" if f[n] else "0" for n in ("wq", "wk", "wv", "wc")))
@@ -1561,10 +1883,11 @@ class C20(PropertyCheck):
     def shrink(self, case):
         if case["kind"] == "shape":
             return
-        for key in ("T", "D", "Q", "K", "O"):
-            if key in case and case[key] > 1:
+        for key, new in [(k_, n_) for k_ in ("T", "D", "Q", "K", "O", "hidden", "H")
+                         for n_ in ([case[k_] // 2] if case.get(k_, 0) > 8 else []) + [case.get(k_, 0) - 1]]:
+            if key in case and case[key] > 1 and (key != "hidden" or case[key] > 3):
                 c = dict(case)
-                c[key] = case[key] - 1
+                c[key] = new
                 if key == "D" and case.get("alias"):
                     continue
                 if key == "K" and case.get("alias"):
@@ -1574,11 +1897,11 @@ class C20(PropertyCheck):
                 if key == "Q" and case["flavour"] == "dot":
                     c["K"] = c["Q"]
                 yield c
-        for j, e in enumerate(case["E"]):
-            if e > 1:
+        for j, e in [(j_, e_) for j_, e0 in enumerate(case["E"]) for e_ in ([e0 // 2] if e0 > 8 else []) + [e0 - 1]]:
+            if e >= 1:
                 c = dict(case)
-                c["E"] = case["E"][:j] + [e - 1] + case["E"][j + 1:]
-                if case["kind"] == "multi" and j == len(case["E"]) - 1 and e == case["H"]:
+                c["E"] = case["E"][:j] + [e] + case["E"][j + 1:]
+                if case["kind"] == "multi" and j == len(case["E"]) - 1 and case["E"][j] == case["H"]:
                     continue  # keep batch == heads
                 yield c
         if any(0 in case[n] for n in ("bq", "bk", "bv", "bm")):
@@ -1592,7 +1915,7 @@ class C20(PropertyCheck):
                 c = dict(case)
                 c[key] = val
                 yield c
-        for key in ("layout", "dtype", "dv_default", "O_default", "vpath"):
+        for key in ("layout", "dtype", "dv_default", "O_default", "vpath", "window", "vconst"):
             if key in case:
                 c = dict(case)
                 del c[key]
